@@ -13,6 +13,7 @@ import tempfile
 from . import common
 from .common import Result, enc_str, digest
 from . import gw as G
+from . import c03
 
 THEOREMS = [
     "MySensors.C17.accept_iff", "MySensors.C17.accept_result", "MySensors.C17.accept_levels_unique",
@@ -269,10 +270,18 @@ RAW_LINES = [None, "", "\n", "abc", "1;2;3;1;4;a;b\n", "1;2;3;0;4", " 1;+2;1;-1;
 
 def real_send(gw, rec, line):
     rec["pubs"].clear()
+    rec["jobs"].clear()
+    queue = getattr(gw.tasks, "queue", None)
+    if queue is not None:
+        queue.clear()
     try:
         gw.tasks.transport.send(line)
     except Exception as exc:  # noqa: BLE001
         return ("raised", G.exc_kind(exc))
+    if rec["jobs"] or queue:
+        # sending is the end of the line: a send that puts work back into the pump (a retry of a failed
+        # publish, say) keeps the pump busy with that one command for as long as the callback keeps failing
+        return ("raised", f"send-queued-work:{len(rec['jobs']) + len(queue or ())}")
     return ("ok", list(rec["pubs"]))
 
 
@@ -404,6 +413,15 @@ def with_starts(hist):
     return out
 
 
+_SPEC = []
+
+
+def _spec():
+    if not _SPEC:
+        _SPEC.append(c03.load_spec())
+    return _SPEC[0]
+
+
 def run_sub_history(hist, version, persist, prefix, pub_raises=False, sub_raises=False):
     """Returns (sub calls, per-op observations, coverage failure or None, escaped exception or None)."""
     workdir = tempfile.mkdtemp(prefix="verif-c17-") if persist != "none" else None
@@ -418,7 +436,18 @@ def run_sub_history(hist, version, persist, prefix, pub_raises=False, sub_raises
         obs = []
         cov = None
         esc = None
+        presented = set()      # children a known node presented with a line the reference accepts
+        spec = _spec()
         for i, op in enumerate(hist):
+            if op[0] == "L":
+                f = op[1].rstrip().split(";")
+                try:
+                    n, c, t, a, st = (int(x) for x in f[:5])
+                    if len(f) == 6 and t == 0 and c != 255 and n in rg.gw.sensors \
+                            and c03.spec_accepts(spec, version, n, c, t, a, st, f[5]) is True:
+                        presented.add((n, c))
+                except ValueError:
+                    pass
             if op[0] == "START":
                 since = len(rg.sub_log)
                 try:
@@ -434,12 +463,15 @@ def run_sub_history(hist, version, persist, prefix, pub_raises=False, sub_raises
                 if o.exc and esc is None:
                     esc = (i, o.exc)
             if op[0] == "R":
+                presented = {(sid, cid) for sid, s_ in rg.gw.sensors.items() for cid in s_.children}
                 continue          # the new process has not started yet
             have = {t for (t, _) in rg.sub_log[since:]}
             need = [prefix + "/+/+/0/+/+", prefix + "/+/+/3/+/+"]
             for sid, s in rg.gw.sensors.items():
                 for cid in s.children:
                     need += [f"{prefix}/{sid}/{cid}/1/+/+", f"{prefix}/{sid}/{cid}/2/+/+", f"{prefix}/{sid}/+/4/+/+"]
+            for sid, cid in sorted(presented):
+                need += [f"{prefix}/{sid}/{cid}/1/+/+", f"{prefix}/{sid}/{cid}/2/+/+"]
             missing = [t for t in need if t not in have]
             if missing and cov is None:
                 cov = (i, missing[0])
